@@ -26,7 +26,10 @@ Definition C05_roundtrip_full_statement : Prop :=
    scalars (opaque token in an <id>.npy member), scipy sparse matrices (<id>.npz), dtypes (through the carrier array
    the dumper creates), masked arrays, RandomState and Generator (through their state dicts), functools.partial;
    bytes / bytearray and their subclasses whose class name resolves at load (the content is an opaque token in a member
-   u<n>.bin named by the dumper's uuid counter, NOT by the object id).
+   u<n>.bin named by the dumper's uuid counter, NOT by the object id); rank-1 object-dtype arrays (exact numpy.ndarray,
+   shape [len(cells)], at most 256 cells so that len(obj) is one of CPython's cached small ints, itself an object of the
+   value's universe `objs`) whose cells are ANY values of the fragment, shared or not: the cells travel as the content of
+   the list tolist() creates, the shape as a fresh tuple the dumper creates around the cached int (CodecShareFacts.objarr_Q).
    A shared array is written once and referenced from every occurrence (member lookup by name: ShowFacts.show_Z_inj).
    A shared bytes object is written once PER OCCURRENCE (u<n>.bin, u<n'>.bin, ... with the same content: that is what
    bytes_get_state does); the loader builds the node of the first occurrence from whichever of these names the file
@@ -37,8 +40,9 @@ Definition C05_roundtrip_full_statement : Prop :=
    times (a DAG); the only requirement is that one label denotes one object (objs_wf: decidable).  The state get_state
    emits is loaded by get_tree + construct to exactly v, identity labels included -- the same sharing.
    c05_guard = fragb (the fragment) && objs_wf (labels) && need v <= default_fuel (nesting depth below the fuel).
-   Still missing from the full statement: object-dtype arrays (PObjArr: the nested-list state of tolist() and the
-   np.array(..., dtype="O") rebuild; rank >= 2 with sequence cells is finding D10), scipy sparse *arrays* (object path).  The statement is about the entry points: dumps_model (incl. the root
+   Still missing from the full statement: object-dtype arrays of rank >= 2 (nested tolist() lists and the
+   np.array(..., dtype="O") rebuild; with sequence cells that is finding D10) and of rank 0, rank-1 object arrays with more
+   than 256 cells (len(obj) is then a fresh int object), scipy sparse *arrays* (object path).  The statement is about the entry points: dumps_model (incl. the root
    fields protocol/_skops_version of _save) does not raise and loads_model returns v.  The missing kinds are covered by the per-case evaluation `c05_case_same`
    and by the correspondence with the implementation (harness/props/c05.py). *)
 Theorem C05_roundtrip_partial :
@@ -80,6 +84,14 @@ Definition wbytes : pval :=
   let ba := PBytes 41 true (s "builtins") (s "bytearray") (s "0001ff") in
   ptuple 42 [plist 43 [bs; ba; bs]; pdict 44 [(kstr "k", bs); (kstr "same-content", PBytes 45 false (s "builtins") (s "bytes") (s "6162"))];
              PArr 46 false (s "numpy") (s "ndarray") (s "tok-f8-2x3"); ba; wshared].
+(* rank-1 object arrays: three cells (a list that also occurs outside the array, the shared bytes object, the cached int 3
+   that is also len(obj)); an empty object array; an object array inside an object array *)
+Definition wobjarr : pval :=
+  let sh := plist 50 [pint 1; pstr_ 51 "x"] in
+  let bs := PBytes 52 false (s "builtins") (s "bytes") (s "6162") in
+  let oa := PObjArr 53 (s "numpy") (s "ndarray") [3%Z] [sh; bs; pint 3] in
+  ptuple 54 [oa; sh; bs; PObjArr 55 (s "numpy") (s "ndarray") [0%Z] [];
+             PObjArr 56 (s "numpy") (s "ndarray") [2%Z] [oa; pdict 57 [(kstr "k", oa)]]; pint 2].
 Definition wC (a : archive) : cenv := cenv_of Snapshot.registry Snapshot.current wf a.
 
 (* non-vacuity: the hypotheses of C05_roundtrip_partial hold of a nested value, and the conclusion computes *)
@@ -95,6 +107,12 @@ Example C05_nonvacuous_bytes :
   /\ roundtrip Snapshot.registry Snapshot.current wf (wd Snapshot.current) wbase wbytes = Ok wbytes
   /\ (do a <- dumps_model (wd Snapshot.current) wbase wbytes; Ok (map fst (a_members a)))
      = Ok [s "u0.bin"; s "u1.bin"; s "u2.bin"; s "u3.bin"; s "u4.bin"; s "46.npy"; s "u5.bin"].
+Proof. repeat split; vm_compute; reflexivity. Qed.
+
+(* non-vacuity for rank-1 object arrays (cells of any kind of the fragment, shared with the rest of the value) *)
+Example C05_nonvacuous_objarr :
+  c05_guard wf (wd Snapshot.current) wbase wobjarr = true
+  /\ roundtrip Snapshot.registry Snapshot.current wf (wd Snapshot.current) wbase wobjarr = Ok wobjarr.
 Proof. repeat split; vm_compute; reflexivity. Qed.
 
 (* the complete pipeline dumps -> schema.json -> get_tree -> construct on a value of the full grammar
